@@ -173,6 +173,10 @@ def g_opts(o):
 ACCEPTS = {
     "cons": {"rtol", "atol", "verbose", "idt", "ifv", "ip", "icomp", "itype"},
     "bounds": {"rtol", "atol", "verbose", "idt", "ifv", "ip", "icomp", "itype"},
+    "iring": {"rtol", "atol", "verbose", "idt", "ifv", "ip", "icomp", "itype"},
+    "count": {"rtol", "atol", "verbose", "idt", "ifv", "ip", "icomp", "itype"},
+    "index": {"rtol", "atol", "verbose", "idt", "ifv", "ip", "icomp", "itype"},
+    "list": {"rtol", "atol", "verbose", "idt", "ifv", "ip", "icomp", "itype"},
     "field": {"rtol", "atol", "verbose", "idt", "ifv", "ip", "icomp", "itype"},
     "data": {"rtol", "atol", "verbose", "idt", "ifv", "icomp", "itype"},
     "axis": {"verbose", "itype"},
@@ -1260,6 +1264,84 @@ def bounds_inherit_cases(rng, n):
     return out
 
 
+# ---- every ordered pair of classes, with and without ignore_type ------------------------------------
+NOMODEL = {"py", "iring", "count", "index", "list"}      # kinds outside the Gallina model (oracle only)
+PDLIKE = ["dim", "aux", "domanc", "meas", "fanc", "dtop", "cconn", "bounds", "iring", "count", "index", "list"]
+XKINDS = PDLIKE + ["axis", "cm", "cr", "data", "field", "domain",
+                   "py:str", "py:none", "py:int", "py:list", "py:nparr", "py:dict"]
+
+
+def cross_class_cases(rng, both_contents):
+    """x of every class against y of every class, ignore_type True and False (explicit), equal or
+    different content.  pd-like classes share one properties+data description so that the
+    converted operand can be equal."""
+    out = []
+
+    def build(kind, P):
+        if kind in GCLS:
+            c = {"cls": kind, "pd": copy.deepcopy(P), "geom": None, "bounds": None, "iring": None, "meas": None}
+            if kind == "meas" and rng.random() < 0.5:
+                c["meas"] = "area"
+            if kind in ("dim", "aux", "domanc") and rng.random() < 0.3:
+                b = gen_pd(rng, list(P["data"]["arr"]["shape"]) + [2], None, allow_str=False)
+                b["props"] = []
+                c["bounds"] = b
+            if kind == "aux" and rng.random() < 0.3:
+                c["geom"] = "polygon"
+            return "cons", c
+        if kind in ("bounds", "iring", "count", "index", "list"):
+            return kind, copy.deepcopy(P)
+        if kind == "axis":
+            return "axis", rng.choice([3, None])
+        if kind == "cm":
+            return "cm", gen_cm(rng, ["domainaxis0"])
+        if kind == "cr":
+            return "cr", gen_cr(rng, ["dimensioncoordinate0"], [])
+        if kind == "data":
+            return "data", copy.deepcopy(P["data"])
+        if kind in ("field", "domain"):
+            return "field", gen_field(rng, kind == "field")
+        return "py", kind.split(":")[1]
+
+    for a in XKINDS:
+        if a.startswith("py:"):
+            continue
+        for b in XKINDS:
+            for itype in (True, False):
+                for same in ((True, False) if both_contents else (rng.random() < 0.5,)):
+                    shape = [3] if (rng.random() < 0.8 or "dim" in (a, b)) and rng.random() < 0.9 else [3, 2]
+                    if a == "dim":
+                        shape = [3] if rng.random() < 0.9 else shape
+                    P = gen_pd(rng, shape, rng.choice(NAMES), allow_str=False)
+                    if a == "dim" and len(P["data"]["arr"]["shape"]) != 1:
+                        P = gen_pd(rng, [3], rng.choice(NAMES), allow_str=False)
+                    Q = copy.deepcopy(P)
+                    if b == "dim" or rng.random() < 0.05:
+                        pass
+                    if not same:
+                        if p_data(rng, Q["data"], "datum_far", props=Q["props"]) is None:
+                            p_props(rng, Q["props"], "prop_add")
+                    if a != "dim" and b in PDLIKE and b != "dim" and rng.random() < 0.15:
+                        pass
+                    kx, vx = build(a, P)
+                    ky, vy = build(b, Q if b != "dim" or len(Q["data"]["arr"]["shape"]) == 1 else gen_pd(rng, [3], "latitude", allow_str=False))
+                    if a == b and same:
+                        ky, vy = kx, copy.deepcopy(vx)      # build() draws optional components at random
+                    o = {"itype": itype}
+                    if rng.random() < 0.3:
+                        o["rtol"], o["atol"] = [0, 1], [0, 1]
+                    if rng.random() < 0.2:
+                        o["ifv"] = True
+                    if rng.random() < 0.2:
+                        o["verbose"] = rng.choice([0, 1, -1])
+                    c = {"fam": "cross-class", "x": sync_top({"k": kx, "v": vx}), "y": sync_top({"k": ky, "v": vy}),
+                         "opts": effective_opts(kx, o), "pclass": "crossclass", "level": "top", "extra": False, "exp": None,
+                         "seq": rng.random() < 0.3, "fine": False, "conv": itype and ky != "py" or (itype and rng.random() < 0.5),
+                         "kinds": [a, b], "same": same}
+                    out.append(c)
+    return out
+
+
 # ---- string data held wider than its longest element ----------------------------------------------
 def strwidth_cases(rng, n):
     out = []
@@ -1646,7 +1728,7 @@ def generate(chk):
     for c in cases:
         if not c["seq"] and rng.random() < 0.25:
             c["seq"] = True
-    mixed = []
+    mixed = cross_class_cases(rng, thorough)
     for _ in range(150 * scale):
         kx, ky = rng.sample(["cons", "bounds", "axis", "cm", "cr", "data", "field", "py"], 2)
         if kx == "py":
@@ -1781,7 +1863,16 @@ def oracle(chk, c, row):
         bad = True
     # symmetry when no tolerance is in play
     exact = o.get("rtol") == [0, 1] and o.get("atol") == [0, 1]
-    if "rev" in row and exact and row["rev"]["r"] != row["r"] and c["x"]["k"] == c["y"]["k"]:
+    crossed = bool(o.get("itype")) and (c["x"]["k"] != c["y"]["k"] or (
+        c["x"]["k"] == "cons" and c["x"]["v"]["cls"] != c["y"]["v"]["cls"]
+        and not (c["x"]["v"]["cls"] in ("dim", "aux", "domanc") and c["y"]["v"]["cls"] in ("dim", "aux", "domanc")))
+        or (c["x"]["k"] == "field" and c["x"]["v"]["isfield"] != c["y"]["v"]["isfield"]))
+    if "rev" in row and exact and row["rev"]["r"] != row["r"] and c["x"]["k"] == c["y"]["k"] and crossed:
+        chk.fail("property", "asymmetric:ignore_type-across-classes",
+                 f"x.equals(y, ignore_type=True)={row['r']} but y.equals(x, ignore_type=True)={row['rev']['r']} "
+                 f"with rtol=atol=0 [{c['fam']}]", {"input": c, "observed": row})
+        bad = True
+    if "rev" in row and exact and row["rev"]["r"] != row["r"] and c["x"]["k"] == c["y"]["k"] and not crossed:
         chk.fail("property", classify(c, row, "asymmetric"), f"x.equals(y)={row['r']} but y.equals(x)={row['rev']['r']} with rtol=atol=0",
                  {"input": c, "observed": row})
         bad = True
@@ -1805,6 +1896,20 @@ def oracle(chk, c, row):
         exp = expected_for(pc, o, lvl)
     if c["pclass"] == "othertype" and not o.get("itype") and c["x"]["k"] != "py":
         exp = False
+    if c["pclass"] == "crossclass":
+        a, b = c["kinds"]
+        exp = None
+        if not o.get("itype"):
+            if a != b:
+                exp = False          # different classes, no conversion asked for
+        elif "conv" in row:
+            cv = row["conv"]
+            if cv["exc"] is None:
+                exp = cv["r"]        # the answer of x.equals(type(x)(source=y))
+            elif str(cv["exc"]).startswith("CONV:"):
+                exp = False          # y can not be converted to the class of x
+        if a == b and c.get("same") and c["x"]["k"] not in ("field", "cm", "cr", "axis") and exp is None:
+            exp = True
     if c["pclass"] == "size":
         exp = False
     if exp is not None and row["r"] != exp:
@@ -1857,7 +1962,7 @@ def run(chk, model_ok):
 
     ncorr = 0
     if model_ok:
-        idx = [i for i, (c, r) in enumerate(done) if c["x"]["k"] != "py" and c["y"]["k"] != "py"]
+        idx = [i for i, (c, r) in enumerate(done) if c["x"]["k"] not in NOMODEL and c["y"]["k"] not in NOMODEL]
         lits = []
         for i in idx:
             c, r = done[i]
